@@ -255,6 +255,25 @@ def execute_step(env, step):
                     rows[k] = (lw, rows.get(k, (lw, ""))[1] + dbn)
             obs["db"] = db_tuple(bp.dot_bracket)
             obs["consumer"] = {"extended_rows": [[lw, dbn] for _, (lw, dbn) in sorted(rows.items())], "extended_seq": seq}
+        elif op.startswith("derived:"):
+            # 'the' notation of an object the library derived from another one (a removal, a rebuild from one of its
+            # notations): it has to be optimal for the DERIVED structure, whatever its source had memoised
+            how = op.split(":", 1)[1]
+            if step.get("warm"):
+                bp.dot_bracket
+            if how == "without_isolated":
+                child = bp.without_isolated()
+            elif how == "without_pseudoknots":
+                child = bp.without_pseudoknots()
+            elif how == "from_fcfs":
+                child = c.BpSeq.from_dotbracket(bp.fcfs)
+            elif how == "from_listed":
+                listed = bp.all_dot_brackets
+                child = c.BpSeq.from_dotbracket(listed[len(listed) // 2])
+            else:
+                raise HarnessError("unknown derivation %r" % how)
+            obs["triples"] = [[e.index_, e.sequence, e.pair] for e in child.entries]
+            obs["db"] = db_tuple(child.dot_bracket)
         elif via == "argument":
             db = bp.convert_to_dot_bracket(solver)
             obs["db"] = db_tuple(db)
